@@ -21,7 +21,7 @@ DESIGN_REF = "DESIGN.md §1 C04"
 RULE = (
     "G-full programs (AST first, depth <= 4) whose right spine is a cascade of open structures (last item of "
     "a body is a structure / modifier operand / delimited string with probability 0.7), plus deterministic "
-    "cascades: every nesting of up to two (thorough: three) of 35 structure/modifier forms (four of them repeat the open last branch verbatim as an earlier branch) ending in each of "
+    "cascades: every nesting of up to two (thorough: three) of 39 structure/modifier forms (four repeat the open last branch verbatim as an earlier branch, four put a string literal spelling its source there) ending in each of "
     "16 kinds of last item, plus (thorough) all ASTs of <= 5 symbols over [ ( { λ ƛ ⟨ @f | closer v ₌ + `a` X. "
     "An evaluation is one comparison closed vs. truncated tree; every k from 1 to the full cascade is "
     "compared. distinct_nontrivial counts distinct truncated texts (k >= 1) that were compared."
@@ -137,6 +137,12 @@ def _forms(F):
             return real[0]
         return F.Lam(None, body)
 
+    def spelled(body, opened):
+        ser = F.serialise_full(body)
+        t = ser.text[: len(ser.text) - ser.droppable] if opened else ser.text
+        # a back-quoted literal cannot hold a back-quote or a backslash unescaped; such bodies get a plain word
+        return t if t and "`" not in t and "\\" not in t else "ab"
+
     return [
         ("if", lambda b: F.If([b])),
         ("if-else", lambda b: F.If([[one()], b])),
@@ -174,6 +180,11 @@ def _forms(F):
         ("if-same-branches", lambda b: F.If([F._clone(b), b])),
         ("if-3-same-branches", lambda b: F.If([F._clone(b), F._clone(b), b])),
         ("list-same-items", lambda b: F.ListLit([F._clone(b), b])),
+        # an earlier branch that is a string literal spelling the source of the last one, closed / open
+        ("if-string-spelling-branch", lambda b: F.If([[F.Lit("str", spelled(b, False))], b])),
+        ("if-string-spelling-open-branch", lambda b: F.If([[F.Lit("str", spelled(b, True))], b])),
+        ("list-string-spelling-branch", lambda b: F.ListLit([[F.Lit("str", spelled(b, False))], b])),
+        ("list-string-spelling-open-branch", lambda b: F.ListLit([[F.Lit("str", spelled(b, True))], b])),
     ]
 
 
